@@ -1582,6 +1582,8 @@ DIRECTED = [
     ("B1", "glpk_exact", [["enter"], ["merge", "ra", None, True, "left"], ["solver", "glpk"], ["exit"]]),
     ("B0", "glpk", [["enter"], ["bounds", "R0", 1, 10], ["solver", "glpk_exact"], ["exit"]]),
     ("B0", "glpk", [["enter"], ["enter"], ["imul", "R0", 2], ["exit"], ["exit"]]),
+    ("B0", "glpk", [["enter"], ["enter"], ["iadd", "R0", "R0"], ["exit"], ["exit"]]),
+    ("B0", "glpk", [["enter"], ["enter"], ["iadd", "R0", "R1"], ["exit"], ["exit"]]),
     ("B0", "glpk", [["enter"], ["enter"], ["rule", "R0", "g3 and g1"], ["exit"], ["exit"]]),
     ("B0", "glpk", [["enter"], ["enter"], ["remove_genes", ["g1"], True, "id"], ["exit"], ["exit"]]),
     ("B0", "glpk", [["enter"], ["enter"], ["rename_genes", {"g1": "g2"}], ["exit"], ["exit"]]),
@@ -1705,7 +1707,14 @@ def _hkey(spec_id, solver, hist):
 
 def _rank(spec, solver, wit):
     """preference among witnesses of one key: shortest, then on a hand-built base, then a fixed order"""
-    return (len(wit), 0 if spec["id"] in ("B0", "B1", "B2") else 1, spec["id"], solver, json.dumps(wit))
+    global _DIRECTED_SET
+    if _DIRECTED_SET is None:
+        _DIRECTED_SET = {json.dumps([b, sv, h]) for b, sv, h in DIRECTED}
+    pinned = json.dumps([spec["id"], solver, wit]) in _DIRECTED_SET
+    return (len(wit), 0 if pinned else 1, 0 if spec["id"] in ("B0", "B1", "B2") else 1, spec["id"], solver, json.dumps(wit))
+
+
+_DIRECTED_SET = None
 
 
 def _record(agg, spec, solver, hist, res):
@@ -1730,17 +1739,17 @@ def _record(agg, spec, solver, hist, res):
 
 def context_tag(wit):
     """what a (shrunk) witness does before it leaves its context(s): the stable part of an exit failure's key.
-    One kind of operation -> its name; a solver switch together with anything else -> one bucket (undo closures bound to
-    the replaced solver object); every other mixture -> 'combination'."""
+    More than one level still open in the shrunk witness -> 'nested' (undo actions that register again in the outer context);
+    one kind of operation -> its name; a solver switch together with anything else -> one bucket (undo closures bound to the
+    replaced solver object); every other mixture -> 'combination'."""
+    if sum(1 for st in wit if st[0] == "enter") > 1:
+        return "nested"
     inner = sorted({API[st[0]] for st in wit if st[0] not in ("enter", "exit")})
     if "Model.solver" in inner and len(inner) > 1:
-        tag = "Model.solver+edit"
-    elif len(inner) <= 1:
-        tag = "+".join(inner)
-    else:
-        tag = "combination"
-    nested = sum(1 for st in wit if st[0] == "enter") > 1
-    return ("nested:" if nested else "") + tag
+        return "Model.solver+edit"
+    if len(inner) <= 1:
+        return "+".join(inner)
+    return "combination"
 
 
 def refine(key, wit):
@@ -1826,14 +1835,23 @@ def plan(tier, seed):
 
 
 def shrink(spec, solver, hist, mode, key):
-    """greedy removal of steps that are not needed for the same failure"""
+    """greedy removal of steps (and of matching enter/exit pairs) that are not needed for the same failure at the last step"""
+    def same(cand):
+        f = first_failure(spec, solver, cand, mode)
+        return f is not None and f[0] == key and f[2] == len(cand) - 1
     changed = True
     while changed:
         changed = False
-        for i in range(len(hist) - 1):
-            cand = hist[:i] + hist[i + 1:]
-            f = first_failure(spec, solver, cand, mode)
-            if f is not None and f[0] == key and f[2] == len(cand) - 1:
+        pairs, stack = [], []
+        for i, st in enumerate(hist):
+            if st[0] == "enter":
+                stack.append(i)
+            elif st[0] == "exit" and stack:
+                pairs.append((stack.pop(), i))
+        cands = [hist[:i] + hist[i + 1:j] + hist[j + 1:] for i, j in pairs if j < len(hist) - 1]
+        cands += [hist[:i] + hist[i + 1:] for i in range(len(hist) - 1)]
+        for cand in cands:
+            if same(cand):
                 hist = cand
                 changed = True
                 break
